@@ -21,7 +21,9 @@ type entry struct {
 var registry = map[string]entry{
 	"C01": {"route", "exploration", route.RunC01, route.Replay},
 	"C02": {"route", "exploration", route.RunC02, route.Replay},
+	"C16": {"route", "exploration", route.RunC16, route.ReplayC16},
 	"C17": {"codec", "exploration", codec.Run, codec.Replay},
+	"C19": {"route", "exploration", route.RunC19, route.ReplayC19},
 }
 
 func main() {
